@@ -7,7 +7,7 @@ These implement the knapsack-based pricing subproblem and simplex tableau operat
 
 from collections.abc import Sequence
 
-__all__ = ["knapsack_pricing", "greedy_knapsack", "simplex_phase"]
+__all__ = ["knapsack_pricing", "greedy_knapsack", "simplex_phase", "drive_out_artificials"]
 
 
 def knapsack_pricing(
@@ -155,3 +155,37 @@ def simplex_phase(
         basis_set.discard(basis[leave])
         basis[leave] = enter
         basis_set.add(enter)
+
+
+def drive_out_artificials(
+    tab: list[list[float]],
+    basis: list[int],
+    n_orig: int,
+    n_rows: int,
+    eps: float,
+) -> None:
+    """Pivot artificial variables that are still basic (at zero) out of the basis.
+
+    Left in the basis they can grow again during phase 2, which makes the "optimal"
+    point violate the very row they belong to. A row with no usable pivot is redundant.
+    """
+    n_cols = len(tab[0])
+    in_basis = set(basis)
+    for i in range(n_rows):
+        if basis[i] < n_orig:
+            continue
+        for j in range(n_orig):
+            if j not in in_basis and abs(tab[i][j]) > eps:
+                piv = tab[i][j]
+                for k in range(n_cols):
+                    tab[i][k] /= piv
+                for r in range(n_rows + 1):
+                    if r != i:
+                        factor = tab[r][j]
+                        if abs(factor) > eps:
+                            for k in range(n_cols):
+                                tab[r][k] -= factor * tab[i][k]
+                in_basis.discard(basis[i])
+                basis[i] = j
+                in_basis.add(j)
+                break
